@@ -1,4 +1,4 @@
-import BiotiteModel.Model.C12Gb
+import BiotiteModel.Model.C12Grp
 /-! Line-protocol driver for C12.  Strings travel as comma separated code points (`_` = empty),
 lists of strings joined by `|` (`-` = empty list), pairs by `~`, nested lists by `^`. -/
 namespace BiotiteModel.Driver.C12
@@ -111,6 +111,23 @@ def showGb (g : Gb) : String :=
   let vs := (List.range g.pos.length).map (fun (i : Nat) =>
     match gbGet g (i : Int) with | .ok t => slashed (gbItem t) | .error e => errS e)
   s!"ok L={encList g.lines} V={if vs.isEmpty then "-" else joinWith ";" vs}"
+
+def sortDedup (l : List String) : List String := (l.toArray.qsort (· < ·)).toList.eraseDups
+
+/-- `type:start:end:strand:attrs` -/
+def decGEnt (t : String) : Option (GEnt Str) :=
+  match t.splitOn ":" with
+  | [ty, a, b, sd, att] =>
+    let strand : Option (Option Bool) := match sd with | "+" => some (some false) | "-" => some (some true) | "." => some none | _ => none
+    match decStr ty, a.toInt?, b.toInt?, strand, decPairs att with
+    | some ty, some a, some b, some sd, some att => some ⟨ty, (a, b, sd), att⟩
+    | _, _, _, _, _ => none
+  | _ => none
+
+def encGFeat (f : GFeat Str) : String :=
+  let locs := sortDedup (f.locs.map (fun l => s!"{l.1}/{l.2.1}/{match l.2.2 with | some false => "+" | some true => "-" | none => "."}"))
+  let att := f.qual.map (fun kv => encStr kv.1 ++ "~" ++ encStr kv.2)
+  s!"{encStr f.key}:{joinWith "|" locs}:{if att.isEmpty then "-" else joinWith "|" att}"
 
 def asciiOnly (s : Str) : Bool := s.all (fun c => c.toNat < 128)
 
@@ -237,6 +254,12 @@ def step (st : St) (line : String) : St × String :=
   | ["gff_parse", l] =>
     match decStr l with
     | some l => (st, match parseLine l with | .ok e => encEntryB e | .error e => errS e)
+    | none => bad
+  | ["gff_group", ents] =>
+    match (if ents == "-" then some [] else (ents.splitOn ";").mapM decGEnt) with
+    | some es =>
+      let fs := sortDedup ((gffGroup "ID".toList es).map encGFeat)
+      (st, "ok " ++ (if fs.isEmpty then "-" else joinWith ";" fs))
     | none => bad
   | ["gff_new"] => (.gff Gff.empty, showGff Gff.empty)
   | ["gff_read", ls] =>
